@@ -1574,3 +1574,186 @@ Corollary reachable_ok_self_check p : reachable_ok p ->
 Proof.
   intros H. apply reachable_ok_inv in H as (H & _). rewrite Forall_forall in *. intros o Ho. apply (H o Ho).
 Qed.
+
+Lemma step_out_ok p op : reachable_ok p -> op_ok p op -> reachable_ok (fst (step_out p op)).
+Proof.
+  intros H Hok. unfold step_out. destruct (exec p op) as [[[p' idxs] extra]|er] eqn:E; cbn [fst]; auto.
+  eapply rk_step; eauto.
+Qed.
+
+(* ---------- WFv against the invariant of PadProofs, and WFv-only corollaries ---------- *)
+Lemma srok_nil_inv rems : srok rems [] = true -> rems = [].
+Proof. destruct rems as [|x r]; [reflexivity|]. rewrite srok_cons, in_ref_nil. discriminate. Qed.
+
+Theorem WFv_wf s : WFv s -> PadProofs.wf s.
+Proof.
+  intros (Hs & Hk & Hst & Hnd & Hf). split; [exact Hs|]. split; [exact Hk|]. split; [exact Hf|].
+  intros p0 G. pose proof (strict_point (tbl s) Hs [] 0 p0 Hst G) as Q.
+  replace (tlt 0 (tbl s)) with (@nil (nat * point)) in Q; [now apply srok_nil_inv|].
+  symmetry. unfold tlt. apply filter_all_false. intros kp _. reflexivity.
+Qed.
+(* the converse needs the two components PadProofs.wf does not mention *)
+Theorem wf_WFv s : PadProofs.wf s -> strict_ok (tbl s) = true -> nodup_active (tbl s) -> WFv s.
+Proof. intros (Hs & Hk & Hf & _) Hst Hnd. repeat split; auto. Qed.
+
+Theorem strip_WFv s chars dl dr : WFv s -> WFv (strip s chars dl dr).
+Proof. intros W. unfold strip. destruct (strip_bounds _ _ _ _) as [l r]. now apply getitem_slice_WFv. Qed.
+Theorem partition_at_WFv s idx seplen : WFv s ->
+  let '(x, y, z) := partition_at s idx seplen in WFv x /\ WFv y /\ WFv z.
+Proof.
+  intros W. unfold partition_at. destruct idx as [i|].
+  - split; [|split]; now apply getitem_slice_WFv.
+  - split; [exact W|split; apply WFv_empty].
+Qed.
+Theorem partition_WFv s sep : WFv s -> let '(x, y, z) := partition s sep in WFv x /\ WFv y /\ WFv z.
+Proof. intros W. unfold partition. now apply partition_at_WFv. Qed.
+Theorem rpartition_WFv s sep : WFv s -> let '(x, y, z) := rpartition s sep in WFv x /\ WFv y /\ WFv z.
+Proof. intros W. unfold rpartition. now apply partition_at_WFv. Qed.
+Theorem removeprefix_WFv s pre : WFv s -> WFv (removeprefix s pre).
+Proof. intros W. unfold removeprefix. destruct (starts_with _ _); auto using getitem_slice_WFv. Qed.
+Theorem removesuffix_WFv s suf : WFv s -> WFv (removesuffix s suf).
+Proof. intros W. unfold removesuffix. destruct (_ || _); auto using getitem_slice_WFv. Qed.
+Theorem split_sep_WFv s sep m right l : WFv s -> split_sep s sep m right = OK l -> Forall WFv l.
+Proof.
+  intros W. unfold split_sep. destruct (is_nil sep); [discriminate|]. intros E; inversion E; subst. clear E.
+  generalize 0 at 1. induction ((if right then py_rsplit else py_split) (base s) sep m) as [|pc r IH]; intros idx;
+    cbn [slices_cumulative]; constructor; auto using getitem_slice_WFv.
+Qed.
+Theorem slices_by_find_WFv s : WFv s -> forall pieces idx, Forall WFv (slices_by_find s pieces idx).
+Proof.
+  intros W. induction pieces as [|pc r IH]; intros idx; cbn [slices_by_find]; [constructor|].
+  destruct (find_from _ _ _); constructor; auto using getitem_slice_WFv.
+Qed.
+
+(* ====================================================================== *)
+(* 12. Examples: the hypotheses are satisfiable, and the one that is needed *)
+(* ====================================================================== *)
+Module InvExamples.
+Import ExecProofs.Examples.
+
+Definition b1 := mkS 0 [49%N].                 (* "1"  *)
+Definition r1 := mkS 1 [51%N; 49%N].           (* "31" *)
+Definition ex_v : astr :=
+  mkA [97; 98; 99; 100]%N [(0, mkP [b1] []); (1, mkP [r1] []); (3, mkP [] [r1]); (4, mkP [] [b1])].
+Definition ex_f (i : nat) : str := match i with 0 => [49%N] | _ => [51%N; 49%N] end.
+
+Example ex_v_WFv : WFv ex_v.
+Proof. apply wfb_sound. reflexivity. Qed.
+Example ex_v_good : good ex_f 2 ex_v.
+Proof.
+  split; [exact ex_v_WFv|]. split.
+  - intros kp x Hk Hx. cbn in Hk. repeat (destruct Hk as [<-|Hk]; [cbn in Hx; repeat (destruct Hx as [<-|Hx]; [cbn; lia|]); destruct Hx|]). destruct Hk.
+  - intros kp x Hk Hx. cbn in Hk. repeat (destruct Hk as [<-|Hk]; [cbn in Hx; repeat (destruct Hx as [<-|Hx]; [reflexivity|]); destruct Hx|]). destruct Hk.
+Qed.
+
+(* value level *)
+Example ex_slice := getitem_slice_good ex_f 2 ex_v (Some 1%Z) (Some (-1)%Z) ex_v_good.
+Example ex_slice_value : tbl (getitem_slice ex_v (Some 1%Z) (Some (-1)%Z)) = [(0, mkP [b1; r1] []); (2, mkP [] [r1; b1])].
+Proof. reflexivity. Qed.
+Example ex_apply := apply_fresh_good ex_f 2 ex_v [[52%N]; [57%N]] (Some 1%Z) (Some 3%Z) false ex_v_good.
+Example ex_apply_value :
+  tbl (apply_fmt ex_v (fst (fresh [[52%N]; [57%N]] 2)) (Some 1%Z) (Some 3%Z) false)
+  = [(0, mkP [b1] []); (1, mkP [mkS 2 [52%N]; mkS 3 [57%N]; b1; r1] [b1]);
+     (3, mkP [] [mkS 2 [52%N]; mkS 3 [57%N]; r1]); (4, mkP [] [b1])].
+Proof. reflexivity. Qed.
+Example ex_remove := remove_fmt_good ex_f 2 ex_v (Some [[49%N]]) (Some 1%Z) (Some 2%Z) ex_v_good.
+Example ex_remove_value :
+  tbl (remove_fmt ex_v (Some [[49%N]]) (Some 1%Z) (Some 2%Z))
+  = [(0, mkP [b1] []); (1, mkP [r1] [b1]); (2, mkP [b1; r1] [r1]); (3, mkP [] [r1]); (4, mkP [] [b1])].
+Proof. reflexivity. Qed.
+Example ex_center := pad_good ex_f 2 ex_v 2 9 32%N true ex_v_good.
+Example ex_center_value : tbl (center ex_v 9 32%N true) = [(0, mkP [b1] []); (3, mkP [r1] []); (5, mkP [] [r1]); (9, mkP [] [b1])].
+Proof. reflexivity. Qed.
+Example ex_assign_short := assign_good ex_f 2 ex_v [120; 121]%N ex_v_good.
+Example ex_assign_value : tbl (assign ex_v [120; 121]%N) = [(0, mkP [b1] []); (1, mkP [r1] []); (2, mkP [] [b1; r1])].
+Proof. reflexivity. Qed.
+Example ex_iadd : exists c, iadd ex_v (getitem_slice ex_v (Some 1%Z) None) = OK c /\ good ex_f 2 c.
+Proof.
+  destruct (iadd_total ex_v (getitem_slice ex_v (Some 1%Z) None)) as (c & E);
+    [exact ex_v_WFv|apply getitem_slice_WFv, ex_v_WFv|].
+  exists c. split; [exact E|]. eapply iadd_good; [exact ex_v_good| |exact E]. apply getitem_slice_good, ex_v_good.
+Qed.
+(* "\x1b[1ma\x1b[31mb\x1b[mc" *)
+Definition ex_w : str := [27; 91; 49; 109; 97; 27; 91; 51; 49; 109; 98; 27; 91; 109; 99]%N.
+Example ex_parse_value : parse ex_w 5 = (mkA [97; 98; 99]%N [(0, mkP [mkS 6 [49%N]] []); (1, mkP [mkS 8 [51%N; 49%N]] []);
+                                                        (2, mkP [] [mkS 6 [49%N]; mkS 8 [51%N; 49%N]])], 10).
+Proof. vm_compute. reflexivity. Qed.
+Example ex_parse := parse_alloc ex_f ex_w 5.
+
+Example ex_replace : exists a' n', replace ex_v [98]%N (RStr [120; 121]%N) (-1) 2 = OK (a', n') /\ alloc ex_f 2 a' n'.
+Proof.
+  eexists. eexists. split; [vm_compute; reflexivity|].
+  eapply replace_alloc; [exact ex_v_good| |vm_compute; reflexivity]; intros a Ha; discriminate Ha.
+Qed.
+Example ex_split : exists l, split_sep ex_v [98]%N (-1) false = OK l /\ Forall (good ex_f 2) l /\ length l = 2.
+Proof.
+  eexists. split; [vm_compute; reflexivity|]. split; [|reflexivity].
+  eapply split_sep_good; [exact ex_v_good|vm_compute; reflexivity].
+Qed.
+Example ex_join : exists c, join_astr [ex_v; getitem_slice ex_v (Some 1%Z) (Some 2%Z); ex_v] = OK c /\ good ex_f 2 c
+                            /\ length (base c) = 9.
+Proof.
+  eexists. split; [vm_compute; reflexivity|]. split; [|reflexivity].
+  eapply join_astr_good; [|vm_compute; reflexivity].
+  repeat constructor; try exact ex_v_good. apply getitem_slice_good, ex_v_good.
+Qed.
+Example ex_wf := WFv_wf ex_v ex_v_WFv.
+
+(* pool level: a history that uses a constructor, an in-place strip, concatenation, a case method with a
+   text of the same length, apply, simplify and remove *)
+Definition case_same : sx := L [A 20; A 0; sx_of_str [65; 66]%N; A 1].
+Definition f_red : sx := L [A 1; sx_of_str [114; 101; 100]%N].
+Definition apply_red : sx := L [A 2; A 0; f_red; L [A 1]; L []; A 0].
+Definition iadd_01 : sx := L [A 9; A 0; A 1].
+Definition simplify_0 : sx := L [A 21; A 0].
+Definition remove_0 : sx := L [A 3; A 0; L []; L [A 1]; L [A 3]].
+Definition ex_history : list sx := [new_string; new_str; strip_ip 0 1; case_same; apply_red; iadd_01; simplify_0; remove_0].
+
+Example ex_history_ok : reachable_ok (run_pool empty_pool ex_history).
+Proof.
+  unfold run_pool, ex_history. cbn [fold_left].
+  repeat (apply step_out_ok; [|try (intros Hc; discriminate Hc)]); [apply rk_empty|].
+  intros _. vm_compute. lia.
+Qed.
+Example ex_history_values :
+  map (fun o => (base (o_val o), strict_ok (tbl (o_val o)))) (objs (run_pool empty_pool ex_history))
+  = [([65; 66; 97; 98; 32]%N, true); ([97; 98; 32]%N, true)].
+Proof. vm_compute. reflexivity. Qed.
+Example ex_history_inv := reachable_ok_inv _ ex_history_ok.
+
+(* the side condition on code 20 is needed IN THE MODEL: op_20 accepts any text.  With a shorter text
+   the stop marker stays beyond the end; remove_formatting() then deletes the start marker only and
+   the self-check fails on the result.  (Python's str case methods never shorten a text, so this
+   history has no counterpart in the library.) *)
+Definition case_short : sx := L [A 20; A 0; sx_of_str [97]%N; A 1].
+Definition remove_all : sx := L [A 3; A 0; L []; L []; L []].
+Example case_short_reachable : reachable (run_pool empty_pool [new_string; case_short; remove_all]).
+Proof. apply run_pool_reachable. constructor. Qed.
+Example case_short_breaks_self_check :
+  map (fun o => (base (o_val o), tbl (o_val o), strict_ok (tbl (o_val o))))
+      (objs (run_pool empty_pool [new_string; case_short; remove_all]))
+  = [([97%N], [(3, mkP [] [mkS 0 [49%N]])], false)].
+Proof. vm_compute. reflexivity. Qed.
+Example case_short_not_ok : ~ op_ok (run_pool empty_pool [new_string]) case_short.
+Proof. intros H. cbn [op_ok case_short] in H. specialize (H eq_refl). vm_compute in H. lia. Qed.
+End InvExamples.
+
+Print Assumptions slice_core_WFv.
+Print Assumptions apply_fresh_good.
+Print Assumptions remove_fmt_good.
+Print Assumptions pad_good.
+Print Assumptions assign_good.
+Print Assumptions case_good.
+Print Assumptions iadd_good.
+Print Assumptions join_astr_good.
+Print Assumptions parse_alloc.
+Print Assumptions parse_ids.
+Print Assumptions construct_alloc.
+Print Assumptions do_apply_alloc.
+Print Assumptions do_remove_good.
+Print Assumptions replace_alloc.
+Print Assumptions split_sep_good.
+Print Assumptions WFv_wf.
+Print Assumptions exec_inv.
+Print Assumptions reachable_ok_inv.
+Print Assumptions reachable_ok_self_check.
